@@ -49,7 +49,8 @@ WORK_LINES = {'total0': 1, 'for': 2, 'add_i': 3, 'if': 4, 'crash': 5, 'add_1': 6
 def expected_hits(n, k, kind):
     """closed form: hits of every line of work(n, k, kind) up to the crash"""
     if kind == 'none' or k >= n or k < 0:
-        return {'total0': 1, 'for': n + 1, 'add_i': n, 'if': n, 'add_1': n, 'ret': 1}
+        # crash('none') is still called at iteration k, it just returns
+        return {'total0': 1, 'for': n + 1, 'add_i': n, 'if': n, 'crash': 1 if 0 <= k < n else 0, 'add_1': n, 'ret': 1}
     return {'total0': 1, 'for': k + 1, 'add_i': k + 1, 'if': k + 1, 'crash': 1, 'add_1': k}
 
 
